@@ -77,7 +77,7 @@ RULE = (
 )
 SCOPE = {
     "quick": {"G1": 7, "K1": 3, "G2": 5, "NA": 12, "NR": 9000, "ALL_AB": 12},
-    "thorough": {"G1": 10, "K1": 3, "G2": 7, "NA": 40, "NR": 30000, "ALL_AB": 25},
+    "thorough": {"G1": 10, "K1": 3, "G2": 7, "NA": 80, "NR": 100000, "ALL_AB": 30},
 }
 EXHAUSTIVE_SCOPE = {t: f"layouts: genome {s['G1']}, <= {s['K1']} blocks; append pairs: genome {s['G2']}, <= 2 blocks; all slice bounds for "
                        f"recorded sequences of length <= {s['ALL_AB']}" for t, s in SCOPE.items()}
